@@ -817,7 +817,8 @@ Fixpoint history (s : scn) (cs : list conn) : res :=
    pushFramesLoop - the consumer - over the channel fbupc of capacity 128.  The pusher may end
    on its own (unsupported pixel format: recover, close the socket, return).  Requests that
    serve() has already read into its 4 KiB bufio.Reader keep coming after that.
-   [fixed]: the send selects on a 'pusher gone' channel (fixes/C09-vnc-...patch); HEAD = false.
+   [fixed]: the send selects on a 'pusher gone' channel - the code since repo commit 6a3f962
+   ([fixed] = false is the code before it, kept for the regression witness).
    Schedule: before each send the pusher (while alive) takes some requests and may end. *)
 Definition VNC_QCAP : nat := 128.
 Inductive pusher := PAlive | PGone.
